@@ -68,3 +68,24 @@ def compare {D R : Type} (stat : D → D → R) (c : Cfg) (s : State D) (x : Inp
 def reset {D : Type} (_s : State D) : State D := ⟨none⟩
 
 end Frouros.Batch
+
+namespace Frouros.Batch
+/-! ### streaming data-drift detectors: `update` (frouros/detectors/data_drift/streaming/base.py) -/
+structure StreamState (D : Type) where
+  xref : Option (List Nat × D)
+  n : Nat
+
+def StreamState.init {D : Type} : StreamState D := ⟨none, 0⟩
+def StreamState.fit {D : Type} (c : Cfg) (s : StreamState D) (x : Input D) : Except Err (StreamState D) :=
+  match x with
+  | .nonArray => .error .other
+  | .array shape data => do
+    checkFit c.kind shape
+    pure { s with xref := some (shape, data) }
+/-- `update`: the fitted check comes first, the counter is incremented only afterwards -/
+def StreamState.update {D : Type} (s : StreamState D) : Except Err (StreamState D) :=
+  match s.xref with
+  | none => .error .missingFit
+  | some _ => .ok { s with n := s.n + 1 }
+def StreamState.reset {D : Type} (_s : StreamState D) : StreamState D := ⟨none, 0⟩
+end Frouros.Batch
